@@ -231,7 +231,7 @@ def check_numbase(R, drv, tier):
                     toks = r.get("tokens") or []
                     lit = toks[1]["kind"].get("Literal") if r.get("ok") and len(toks) == 2 and isinstance(toks[1].get("kind"), dict) else None
                     if lit == {"Integer": expect}:
-                        R.cov.setdefault("unobservable_models", []).append(["K-numbase", src])
+                        R.engine_error(f"ENCODER-MISMATCH K-numbase: the model literal {src} lexes as expected in the real lexer")
                         continue
                     nviol += 1
                     R.violation({"engine": "mirsym", "kernel": "K-numbase", "kind": "number_value", "base": base},
@@ -246,3 +246,198 @@ def check_numbase(R, drv, tier):
               "is converted to its positional value", "wall_s": round(time.time() - t0, 2)})
     R.cov.setdefault("bounds", {})["K-numbase"] = "all digit strings of every admitted length (max_digits read from the call sites); prefix/underscore/repetition combinators not executed"
     core.log(f"[K-numbase] {nq} queries, {nviol} violations in {time.time()-t0:.1f}s")
+
+
+def le_decimal(dv, bound):
+    """digit values (most significant first) denote a number <= bound: lexicographic comparison of the zero-padded digit strings"""
+    k = str(bound)
+    n = max(len(dv), len(k))
+    a = [z3.BitVecVal(0, 32)] * (n - len(dv)) + list(dv)
+    b = [int(x) for x in "0" * (n - len(k)) + k]
+    res = z3.BoolVal(True)                  # all digits equal: <=
+    for x, y in reversed(list(zip(a, b))):
+        res = z3.Or(z3.ULT(x, y), z3.And(x == y, res))
+    return res
+
+
+# ---------------------------------------------------------------- K-numdec
+def check_numdec(R, drv, tier):
+    """K-numdec (C08): the closure that turns the three matched parts of a decimal spelling (integer part, fraction, exponent) into a
+    Literal - `number::{closure#7}` with its underscore filter closure - executed from the prqlc-parser MIR. The parts' shapes are
+    enumerated (lengths, underscore positions, exponent letter and sign), every digit is symbolic.
+    Decided by z3 per exit path: without fraction and exponent the result is Literal::Integer(positional value) when it fits an i64 and
+    otherwise Literal::Float of exactly the digit string; with a fraction or an exponent it is Literal::Float of exactly
+    integer + fraction + exponent without underscores (`str::parse::<f64>` is a model that keeps the text it was given - float rounding
+    itself is core's and is not decided). Models are replayed through the real lexer."""
+    import core
+    import kernels
+    import litfmt
+    from kchecks import _account
+    t0 = time.time()
+    try:
+        register_enum("Literal", enum_from_source(__import__("os").path.join(core.REPO, "prqlc/prqlc-parser/src/lexer/lr.rs"), "Literal"))
+        funcs = kernels.load_parser(r"^number(::\{closure#\d+\})+($|::promoted)")
+        # the closure that receives ((int, frac), exp): the one returning Literal
+        cands = [n for n, f in funcs.items() if re.fullmatch(r"number::\{closure#\d+\}", n) and f.ret.strip().endswith("Literal")]
+        if len(cands) != 1:
+            raise Inconclusive(f"conversion closure of number() not identified: {cands}")
+        conv = cands[0]
+
+        def m_filter(I, st, a):
+            return SAgg("filter", "", {0: models.deref(I, st, a[0]), 1: a[1]})
+
+        def m_collect(I, st, a):
+            flt = a[0]
+            if not (isinstance(flt, SAgg) and flt.kind == "filter"):
+                raise Inconclusive(f"K-numdec: collect of {flt}")
+            cur, clo = flt.f[0], flt.f[1]
+            s = cur.f[0]
+            body = I.closure_body(clo.name)
+            if body is None:
+                raise Inconclusive(f"K-numdec: filter closure body {clo.name}")
+            out = []
+            for c in s.ch[cur.f["pos"]:]:
+                def build(st2, c=c):
+                    st2.heap.append(clo)
+                    st2.heap.append(SInt(c, 32, False))
+                    return [SRef(-1, ("cell", 0)), SRef(-1, ("cell", 1))]
+                keep, _ = eval_pred(I.funcs, I.stub_patterns, body, build)
+                if not I.feasible(st.pc, z3.Not(keep)):
+                    out.append(c)
+                elif I.feasible(st.pc, keep):
+                    raise Inconclusive("K-numdec: the filter's verdict on a character is undecided on this path")
+            return litfmt.LStr(out)
+
+        def parse_int(I, st, a, bits=64):
+            s = litfmt.lstr(I, st, a[0])
+            if not s.ch:
+                return SEnum("Result", 1, {1: {0: SOpaque("ParseIntError", False)}})
+            val, okd, dv = z3.BitVecVal(0, 64), [], []
+            for c in s.ch:
+                isd, v = digit_value(c, z3.BitVecVal(10, 32))
+                okd.append(isd)
+                dv.append(v)
+                val = val * 10 + z3.ZeroExt(32, v)          # wraps; only used when the value fits
+            if len(s.ch) > 22:
+                raise Inconclusive("K-numdec: more than 22 digits")
+            ok = z3.And(le_decimal(dv, (1 << 63) - 1), *okd)
+            return [(ok, SEnum("Result", 0, {0: {0: SInt(val, 64, True)}})),
+                    (z3.Not(ok), SEnum("Result", 1, {1: {0: SOpaque("ParseIntError", False)}}))]
+
+        def parse_float(I, st, a):
+            s = litfmt.lstr(I, st, a[0])
+            return SEnum("Result", 0, {0: {0: SAgg("f64of", "", {0: s})}})
+
+        def m_parse(I, st, a):
+            # the target type is in the turbofish of the call
+            m = re.search(r"::parse::<([a-z0-9]+)>$", I.current_callee)
+            if m and m.group(1) == "f64":
+                return parse_float(I, st, a)
+            if m and m.group(1) == "i64":
+                return parse_int(I, st, a)
+            raise Inconclusive(f"K-numdec: {I.current_callee}")
+
+        pats = [(re.compile(p), f) for p, f in [
+            (r"^<(std::str::|core::str::)?Chars<'_> as Iterator>::filter$", m_filter),
+            (r"^<(std|core)::iter::Filter<.*> as Iterator>::collect$", m_collect),
+            (r"^core::str::<impl str>::parse$", m_parse),
+        ] + stubs() + litfmt.stubs()]
+    except Inconclusive as e:
+        R.engine_error(f"K-numdec: {e}")
+        return
+
+    D = "d"
+    shapes = [(D * n, "", "") for n in range(1, 21)]
+    shapes += [("d_d", "", ""), ("dd_ddd", "", ""), ("d__d", "", ""), ("d_ddd_ddd_ddd_ddd_ddd_ddd", "", "")]
+    for ip in ("d", "dd", "d_d", "0"):
+        for fp in ("", ".d", ".dd", ".d_d"):
+            for ep in ("", "ed", "Ed", "e+d", "e-d", "edd", "e-dd"):
+                if fp or ep:
+                    shapes.append((ip, fp, ep))
+    nq = nviol = npaths = 0
+    lastI = None
+    try:
+        for k, (ip, fp, ep) in enumerate(shapes):
+            pre, parts, digits_all = [], [], []
+            for pi, p in enumerate((ip, fp, ep)):
+                chs = []
+                for i, x in enumerate(p):
+                    if x == "d":
+                        c = z3.BitVec(f"nd{k}_{pi}_{i}", 32)
+                        lo = 49 if (pi == 0 and i == 0 and len(ip.replace("_", "")) > 1) else 48
+                        pre.append(z3.And(z3.UGE(c, lo), z3.ULE(c, 57)))
+                        chs.append(c)
+                    elif x == "0":
+                        chs.append(z3.BitVecVal(48, 32))
+                    else:
+                        chs.append(z3.BitVecVal(ord(x), 32))
+                parts.append(chs)
+            expect = [c for p in parts for c in p if not (z3.is_bv_value(c) and c.as_long() == 95)]
+            I = Interp(funcs, unwind=64, timeout_s=60)
+            I.stub_patterns = pats
+            I.lazy = False
+            st = State()
+            st.pc = list(pre)
+            st.heap.append(SAgg("closure", "", {}))
+            arg = SAgg("tuple", "", {0: SAgg("tuple", "", {0: litfmt.LStr(parts[0]), 1: litfmt.LStr(parts[1])}), 1: litfmt.LStr(parts[2])})
+            st.frames.append(I.new_frame(conv, [SRef(-1, ("cell", 0)), arg]))
+            I.deadline = time.time() + 60
+            I.exits = []
+            I.explore(st)
+            lastI = I
+            iI, iF = VARIANTS["Literal"].index("Integer"), VARIANTS["Literal"].index("Float")
+            plain = not fp and not ep
+            val = z3.BitVecVal(0, 64)
+            for c in expect:
+                if plain:
+                    val = val * 10 + z3.ZeroExt(32, c - 48)
+            fits = le_decimal([c - 48 for c in expect], (1 << 63) - 1) if plain else z3.BoolVal(False)
+            good = 0
+            for e in I.exits:
+                npaths += 1
+                v_ = e.value
+                if e.kind == "return" and isinstance(v_, SEnum) and v_.ty == "Literal" and v_.disc == iI and isinstance(v_.pay[iI][0], SInt):
+                    goal = z3.Not(z3.And(fits, v_.pay[iI][0].t == val))
+                elif e.kind == "return" and isinstance(v_, SEnum) and v_.ty == "Literal" and v_.disc == iF and isinstance(v_.pay[iF][0], SAgg) and v_.pay[iF][0].kind == "f64of":
+                    got = v_.pay[iF][0].f[0].ch
+                    same = z3.And(*[a_ == b_ for a_, b_ in zip(got, expect)]) if len(got) == len(expect) else z3.BoolVal(False)
+                    goal = z3.Not(z3.And(z3.Not(fits), same))
+                else:
+                    goal = z3.BoolVal(True)
+                v, model, dt = kernels.check(e.pc, goal, timeout_ms=30000)
+                nq += 1
+                R.q(v, dt)
+                if v == "unknown":
+                    R.engine_error("K-numdec: unknown")
+                if v == "unsat":
+                    good += 1
+                if v != "sat":
+                    continue
+                src = "".join(chr(model.eval(c, model_completion=True).as_long()) for p in parts for c in p)
+                clean = src.replace("_", "")
+                if plain and int(clean) <= (1 << 63) - 1:
+                    want = {"Integer": int(clean)}
+                else:
+                    want = {"Float": float(clean)}
+                r = drv.req(op="lex", prql=src)
+                toks = r.get("tokens") or []
+                lit = toks[1]["kind"].get("Literal") if r.get("ok") and len(toks) == 2 and isinstance(toks[1].get("kind"), dict) else None
+                if lit == want:
+                    R.engine_error(f"ENCODER-MISMATCH K-numdec: the model literal {src} lexes as expected in the real lexer")
+                    continue
+                nviol += 1
+                R.violation({"engine": "mirsym", "kernel": "K-numdec", "kind": "number_value", "plain": plain},
+                            f"K-numdec: the literal {src} denotes {list(want.values())[0]!r}; the lexer gives {str(lit if lit is not None else r.get('errors') or toks)[:120]}",
+                            {"prql": src, "text": str(list(want.values())[0]), "lexed": str(lit), "expect_token": {"Literal": want}})
+            if good == 0 and nviol == 0:
+                R.engine_error(f"K-numdec: shape {ip!r} {fp!r} {ep!r} has no accepting path (vacuous)")
+    except Inconclusive as e:
+        R.engine_error(f"K-numdec: {e}")
+        return
+    if lastI is not None:
+        _account(R, lastI, "K-numdec")
+    R.cov["states"] = R.cov.get("states", 0) + npaths
+    R.sample({"kernel": "K-numdec", "shapes": len(shapes), "paths": npaths, "queries": nq, "property": "plain digit strings of 1..20 digits (all digits symbolic) are Integer(value) up to "
+              "i64::MAX and Float(of exactly those digits) above; spellings with fraction / exponent / underscores are Float of integer+fraction+exponent without underscores", "wall_s": round(time.time() - t0, 2)})
+    R.cov.setdefault("bounds", {})["K-numdec"] = f"{len(shapes)} shapes of (integer part, fraction, exponent); f64 parsing itself is a model that keeps its argument text"
+    core.log(f"[K-numdec] {len(shapes)} shapes, {npaths} paths, {nq} queries, {nviol} violations in {time.time()-t0:.1f}s")
